@@ -161,6 +161,14 @@ def run_case(case, errs):
         except Exception as e:           # not playable at all
             build_error.append(type(e).__name__)
             return
+        if prog[0] == 'restart':
+            # stop the player mid-way, later play it again from the beginning (documented reset=True)
+            player = obj.play()
+            yield num(prog[3])
+            player.stop()
+            yield num(prog[4])
+            player.play(reset=True)
+            return
         obj.play()
         if prog[0] == 'replay':
             # the same event OBJECT (or a copy of the already played object) played again later
@@ -180,6 +188,8 @@ def run_case(case, errs):
                 end = repr(float(t) - 1.0)        # time of the last wake-up (tail = 1.0)
             if msg[0] in ('/s_new', '/n_set', '/n_free'):
                 out.append([repr(float(t)), msg[0]] + [fmt_arg(a) for a in msg[1:]])
+    if prog[0] == 'restart':
+        end = None                      # stale wake-ups of the stopped pass may come last
     return {'msgs': out, 'end': end, 'errors': errs.n - before, 'build_error': build_error,
             'error_text': errs.last if errs.n > before else ''}
 
